@@ -132,7 +132,7 @@ def replay(rec):
 
 LEVEL_TEXT = ("code_to_category is executed symbolically from its AST for an arbitrary integer and proved equal to the "
               "PS3.7 category function for ALL integers >= 0 (total, single-valued); every entry of every *_STATUS table "
-              "(module top level re-executed from the AST) is checked against both; finite parts are exhaustive.")
+              "(module top level re-executed from the AST) is checked against both; finite parts are exhaustive. SCU/SCP finality decisions (C24 response iterators, C20 Q/R C-FIND SCP) re-proved under this id.")
 LEVEL_NOTE = ("trusted: pyvc executor, z3, the transcription spec/ps37_status.py. SCU/SCP finality decisions are covered "
               "by the C20/C24 contracts, not here.")
 TECHNIQUE = "deductive: AST->VC of code_to_category vs spec function (z3, all integers) + exhaustive table obligations"
